@@ -9,8 +9,10 @@ Leaves are quantified over the whole data universe D (symbolic cell); container 
 shapes: the evaluation of concatenated source text is judged by CPython's `eval`, not by a model of the Python grammar).
 """
 import builtins
+import collections
 import enum
 import math
+import typing
 from decimal import Decimal
 from fractions import Fraction
 
@@ -33,6 +35,39 @@ class _Raw(str):
 
     def __repr__(self):
         return str(self)
+
+
+class _Point(typing.NamedTuple):
+    x: int = 0
+    y: int = 0
+
+
+class _MyList(list):
+    pass
+
+
+class _MyTuple(tuple):
+    pass
+
+
+class _MySet(set):
+    pass
+
+
+class _MyFrozenSet(frozenset):
+    pass
+
+
+class _MyDict(dict):
+    pass
+
+
+class _MyStr(str):
+    pass
+
+
+class _MyBytes(bytes):
+    pass
 
 
 class _Meters(int):
@@ -96,6 +131,11 @@ SHAPES = {
     "bytearray": bytearray(b"ab"), "nan-inside": (float("nan"),), "inf-inside": [float("inf")],
     "ellipsis": ..., "notimplemented": NotImplemented, "builtin-type": int, "builtin-func": len, "exc-alias": IOError,
     "raw-code": _Raw("1 + 1"), "raw-call": _Raw("setattr(__import__('builtins'), 'C19_CANARY', True)"), "raw-in-tuple": (_Raw("x y"), 1), "meters": _Meters(5),
+    # instances of SUBCLASSES of the containers: a literal of the base class is a different default (type, attributes, methods)
+    "namedtuple": _Point(0, 0), "namedtuple-inside": (_Point(1, 2),), "list-subclass": _MyList([1]), "tuple-subclass": _MyTuple((1, 2)),
+    "set-subclass": _MySet({1}), "frozenset-subclass": _MyFrozenSet({1}), "dict-subclass": _MyDict(a=1),
+    "ordereddict": collections.OrderedDict(a=1), "defaultdict": collections.defaultdict(list), "str-subclass-inside": [_MyStr("zz")],
+    "bytes-subclass": _MyBytes(b"ab"), "deque": collections.deque([1]),
     "intenum-zero": _P.ZERO, "myint-one": _MyInt(1), "myint": _MyInt(7), "neg-zero": -0.0, "bool-in-tuple": (True, False, None),
 }
 for label, shape in SHAPES.items():
